@@ -10,7 +10,7 @@ COMMON_ASSUMPTIONS = [
 PLAN = {}
 NOT_APPLICABLE = {}
 # guarded (-DVATA_VERIF) instrumentation commits in /repo
-HOOK_COMMITS = ["eae8efbd", "9d95f65e", "aba84741"]
+HOOK_COMMITS = ["eae8efbd", "9d95f65e", "aba84741", "8a4a5a98"]
 
 PLAN["C01"] = {
     "level": "exploration",
@@ -18,7 +18,7 @@ PLAN["C01"] = {
             "TRIMMED automata (every pair is language-equivalent to a trimmed pair because all variants trim their operands first) is built through the public API and "
             "checked with all 8 implemented InclParam selections (no-sim variants on raw operands under 2 state numberings, sim variants with the "
             "cli/unit-test recipe: SanitizeAutsForInclusion + UnionDisjointStates + ComputeSimulation) against the reference subset-construction inclusion; "
-            "for every included pair the final antichain of the upward algorithm (exported by a guarded hook) is additionally checked to be sound and complete w.r.t. the reference reachable pairs, and in every step of its main loop every post-image computed must be subsumed by an entry the step keeps; "
+            "for every included pair the final antichain of the upward algorithm (exported by a guarded hook) is additionally checked to be sound and complete w.r.t. the reference reachable pairs, and in every step of its main loop every post-image computed must be subsumed by an entry the step keeps; in the non-recursive downward algorithm every state a choice function offers for a tuple position must be simulated by a state of the antichain kept for that position; "
             "a pair is non-trivial when both languages are non-empty and A != B (pairs are distinct by construction of the index bijection)",
     "assumptions": COMMON_ASSUMPTIONS,
     "claim": "Every ordered pair of tree automata of the stated finite domains is decided by all 8 implemented inclusion variants on the real library "
@@ -181,11 +181,11 @@ PLAN["C17"] = {
     "level": "exploration",
     "rule": "v=3 variables, values {0,1,2}: all 243 diagrams M(asgn in {0,1,X}^3, value, default) + constants (construction, copy/assign/self-assign, 3 unary ops, VoidApply1); all ordered "
             "pairs x 4 binary leaf operations incl. a non-commutative one (+VoidApply2); all triples of a 33-element sub-basis x 2 ternary ops and 18 depth-2 operation trees; ALL 6561 "
-            "functions {0,1}^3->{0,1,2}: GetPaths partition, Project (every variable subset x max/min), Rename (all order-preserving injections into 5 variables), ExtendWith, "
+            "functions {0,1}^3->{0,1,2}: GetPaths partition, Project (every variable subset x max/min, and x a non-idempotent and a non-commutative operation against a structural reference), Rename (all order-preserving injections into 5 variables), ExtendWith, "
             "GetMtbddForPrefix; ALL ordered pairs of ALL functions over 2 (quick) and 3 (thorough: 43M pairs) variables; v=4 in thorough. Oracle: value for EVERY total assignment equals "
             "the pointwise result, and canonicity: one representative per function table is kept for the whole life of each worker process and operator== must hold for every later "
             "diagram with the same table. Non-trivial = operands/functions not constant or not identical",
-    "assumptions": COMMON_ASSUMPTIONS + ["Project is checked with idempotent commutative combiners (max, min) as libvata uses it (set union); Rename only with order-preserving maps (its documented precondition); "
+    "assumptions": COMMON_ASSUMPTIONS + ["Project with idempotent commutative combiners (max, min: the way libvata uses it) is checked against the combination over all assignments of the removed variables; with non-idempotent operations the result of a reduced ordered diagram is defined structurally (a node exists exactly where the function depends on the variable) and is checked against that definition computed from the function table; Rename only with order-preserving maps (its documented precondition); "
                                         "GetMtbddForPrefix only with concrete prefixes", "history dependence inside one node store is covered by the per-worker persistent canonical table (different "
                                         "VERIF_SEED values rotate the block order) and exhaustively for short histories by the C18 explorer"],
     "claim": "Every diagram / pair / triple / function of the stated finite domains, checked on every total assignment, with canonicity checked against everything built earlier in the same process.",
@@ -193,7 +193,7 @@ PLAN["C17"] = {
     "quick": [("rel", "c17.v3.base"), ("rel", "c17.v3.apply2"), ("rel", "c17.v3.trees"), ("rel", "c17.v3.allfn"), ("rel", "c17.v2.allpairs"), ("rel", "c17.v4.base"), ("rel", "c17.v4.apply2"), ("rel", "c17.v4.trees")],
     "thorough": [("rel", "c17.v3.base"), ("rel", "c17.v3.apply2"), ("rel", "c17.v3.trees"), ("rel", "c17.v3.allfn"), ("rel", "c17.v2.allpairs"), ("rel", "c17.v4.base"), ("rel", "c17.v4.apply2"), ("rel", "c17.v4.trees"),
                  ("rel", "c17.v3.allpairs"), ("asan", "c17.v3.apply2"), ("asan", "c17.v3.allfn")],
-    "require": {"all": ["apply1", "apply2", "apply3", "depth2", "project", "rename", "extend", "prefix", "getpaths"]},
+    "require": {"all": ["apply1", "apply2", "apply3", "depth2", "project", "project_nonidempotent", "rename", "extend", "prefix", "getpaths"]},
 }
 
 PLAN["C18"] = {
